@@ -59,7 +59,8 @@ def check_case(sp, col, shard, seed_parts):
     nm = model.nodes
     rnd = gen.rng_for('C16v', *seed_parts)
     try:
-        if not model.architectures(limit=5000):
+        archs = model.architectures(limit=5000)
+        if not archs:
             col.count('skipped_no_architecture')
             return
     except OverflowError:
@@ -89,6 +90,20 @@ def check_case(sp, col, shard, seed_parts):
         base_before = O.instance(b.dsg, b)['dv']
         try:
             gp = GraphProcessor(b.dsg, encoder_type=getattr(SelChoiceEncoderType, enc))
+            # a third of the processors get one selection variable fixed before anything else is asked of them
+            if rnd.random() < .35:
+                cand = [dv for dv in gp.all_des_vars if isinstance(dv.node, an.SelectionChoiceNode)]
+                if cand:
+                    dv_f = rnd.choice(cand)
+                    # only to a value some reference architecture takes (a fix that empties the space is C15's matter)
+                    taken = {a['assign'].get(b.name(dv_f.node)[2:]) for a in archs}   # 'S:<key>'
+                    vals = [k for k, o in enumerate(dv_f.options) if b.name(o) in taken]
+                    try:
+                        if vals:
+                            gp.fix_des_var(dv_f, rnd.choice(vals))
+                            col.count('monitor_fixed_before_first_decode')
+                    except Exception:  # noqa  (judged by C15)
+                        pass
             dvs = gp.des_vars
         except Exception:  # noqa
             col.count('skipped_construct_failed')
